@@ -227,6 +227,30 @@ def check_fmax_competition(rep: Rep, pre: str, comp: Competition,
                        "(wrong node, wrong source or outside the accepted branch)")
 
 
+def check_prototypes_survive(rep: Rep, pre: str, comp: Competition) -> None:
+    """A queued prototype (cost 0, own label) can only be re-pointed by a non-strict improvement:
+    acceptance must be strict, or non-strict under a strict outer cost guard."""
+    for u in comp.updates:
+        hp = comp.hcost(comp.p)
+        weight = split_candidate(u.value, hp, "max")
+        acc = acceptance(comp, u)
+        if acc is None:
+            rep.ev(pre + "KEEP-accept", u.event, False, "H.update(q, v) is not dominated by a test of v against H.cost[q]")
+            continue
+        t, rel, pos = acc
+        names = [classify_guard(comp, u, g, pol, weight) for k, (g, pol) in enumerate(u.inner_guards) if k != pos]
+        ok = rel == "v<h" or (rel == "v<=h" and "outer-cost-strict" in names)
+        rep.guard(pre + "KEEP-accept", comp.walker, t, u.event, ok,
+                  "" if ok else "a prototype at distance 0 from another prototype (or any removed node) can be "
+                  "re-conquered: acceptance is not strict and no strict outer cost guard protects it")
+        # and nothing else in the loop rewrites label / predecessor of a prototype
+        for e in comp.events:
+            if e.kind == "store" and e.target[0] == "attr" and e.target[2] in ("pred", "predicted_label", "status") \
+                    and node_of(e.target[1]) and e.guards != u.event.guards:
+                rep.ev(pre + "KEEP-stray", e, False,
+                       "store to a forest field outside the accepted branch may overwrite a prototype's state")
+
+
 def check_seeding(rep: Rep, pre: str, comp: Competition, repo: Repo) -> None:
     """Prototypes enter with cost 0, no predecessor and their own label; nothing else is queued."""
     w = comp.walker
